@@ -10,7 +10,7 @@
     (one call to A, receiver pointer first, arguments in order, callee's result returned) is
     [RustExec.exec_address_call] (spec side). *)
 From Coq Require Import List NArith ZArith Bool String.
-From PyxisModel Require Import Base Grammar SemTypes Registry Sem FunctionLemmas.
+From PyxisModel Require Import Base Grammar SemTypes Registry Sem FunctionLemmas WholeBuild.
 Import ListNotations.
 
 Theorem C05_main : forall R scope f sf,
@@ -56,3 +56,21 @@ Proof.
     exists (fn :: new). split; [rewrite Hnew, <- app_assoc; reflexivity | constructor; assumption].
 Qed.
 Print Assumptions C05_impl_functions_kept.
+
+(** ** End to end.  Every function declared in the impl block of a type of an accepted
+    ([collision_free]) build is, in the FINAL registry, an associated function of that type, built
+    from its declaration (so [C05_main] applies to it: address, parameters, return type), listed after
+    the functions inherited from the bases, in declaration order. *)
+Theorem C05_whole_build : forall order ptr mods st0 st p it0 gd td0 it r parent module0 blk,
+  input_state ptr mods = Ok st0 -> collision_free (st_reg st0) ->
+  pyxis_resolve order ptr mods = BOk st ->
+  reg_get (st_reg st0) p = Some it0 -> it_state it0 = Unresolved gd -> gi_inner gd = GIType td0 ->
+  reg_get (st_reg st) p = Some it -> it_state it = Resolved r ->
+  path_parent p = Some parent -> alookup parent (st_modules st0) = Some module0 ->
+  alookup p (m_impls module0) = Some blk ->
+  exists td R_mid inherited own,
+    rs_inner r = IType td /\ ext (st_reg st0) R_mid (st_reg st) /\
+    td_assoc td = inherited ++ own /\
+    Forall2 (fun f sf => function_build R_mid (module_scope module0) false f = Ok sf) (gb_fns blk) own.
+Proof. exact whole_build_impl_functions. Qed.
+Print Assumptions C05_whole_build.
